@@ -410,6 +410,10 @@ def gen_history(world: World, kind: str, length: int, weights=None, irregular_bi
                     # bias source timing towards the receiver's mode
                     srcs.append(nm)
             hint["junction"] = None
+            if rng.random() < 0.12:
+                # the receiver itself among the sources, once or twice (list semantics: its samples as they were before the call)
+                for _k in range(rng.choice([1, 1, 2])):
+                    srcs.insert(rng.randint(0, len(srcs)), main)
             if not srcs:
                 continue
             real = [world.objs[n][1] for n in srcs]
